@@ -58,7 +58,7 @@ def install_errno_table(prog):
 
 def io_sites(u):
     out = []
-    for fn in u.functions.values():
+    for fn in u.roots():
         ord_ = {}
         for b, i, s in fn.stmts():
             for c in calls(s):
@@ -116,7 +116,7 @@ def run(prog, rep):
                                       ("p_socket_receive_from", "recvfrom", 2, 3),
                                       ("p_socket_send", "send", 1, 2),
                                       ("p_socket_send_to", "sendto", 2, 3)):
-        fn = u.fn(fname)
+        fn = u.fn(fname).inlined()
         bufp, lenp = fn.param_names()[bufi], fn.param_names()[leni]
         cs = [c for (b, i, c) in fn.calls() if c.get("callee") == native]
         if len(cs) != 1:
@@ -191,7 +191,7 @@ def run(prog, rep):
     rep.floor("C09.2", 16)
 
     # C09.3 sender address
-    fn = u.fn("p_socket_receive_from")
+    fn = u.fn("p_socket_receive_from").inlined()
     rc = [c for (b, i, c) in fn.calls() if c.get("callee") == "recvfrom"]
     nc = [(b, i, c) for (b, i, c) in fn.calls() if c.get("callee") == "p_socket_address_new_from_native"]
     if len(rc) == 1 and len(nc) == 1:
@@ -216,7 +216,7 @@ def run(prog, rep):
     # C09.4 SIGPIPE
     sends = [(f, c) for f in u.functions.values() for (b, i, c) in f.calls() if c.get("callee") in ("send", "sendto")]
     all_flag = all((cv(c["args"][3]) or 0) & MSG_NOSIGNAL for (f, c) in sends)
-    init = u.fn("p_socket_init_once")
+    init = u.fn("p_socket_init_once").inlined()
     ign = False
     for (b, i, c) in init.calls():
         if c.get("callee") == "signal" and cv(c["args"][0]) == SIGPIPE and cv(c["args"][1]) == 1:
@@ -235,7 +235,7 @@ def run(prog, rep):
     rep.floor("C09.4", 2)
 
     # C09.6 connect completion
-    fn = u.fn("p_socket_connect")
+    fn = u.fn("p_socket_connect").inlined()
     conn = [c for (b, i, c) in fn.calls() if c.get("callee") == "connect"]
     stores = []
 
@@ -279,7 +279,7 @@ def run(prog, rep):
     okw = res is not None and WAIT in res["reached"] and "p_socket_check_connect_result" in res["reached"]
     rep.ob("C09.6", fn, "inprogress", okw, "EINPROGRESS on a blocking socket: waits for writability, then reads SO_ERROR" if okw else
            "EINPROGRESS on a blocking socket does not lead to the writability wait and the SO_ERROR check", fn.loc[0])
-    cr = u.fn("p_socket_check_connect_result")
+    cr = u.fn("p_socket_check_connect_result").inlined()
     gs = [c for (b, i, c) in cr.calls() if c.get("callee") == "getsockopt"]
     SO_ERROR, SOL_SOCKET = 4, 1
     okg = len(gs) == 1 and cv(gs[0]["args"][1]) == SOL_SOCKET and cv(gs[0]["args"][2]) == SO_ERROR
